@@ -442,7 +442,7 @@ def transformer_scc(ctx, rid, key, comp, g, bindings):
     # order of statements in resolve: lookup -> cache check -> mark in progress -> policy -> store result
     order = []
     weak_marker = False
-    for n in walk(fn["body"], into_closures=False):
+    for n in walk(fn["body"]):       # closures in `resolve` are arguments of combinators: they run where they are written
         if n.get("k") == "MethodCall" and cshort(n.get("callee", "")) in ("HashMap::insert", "Entry::or_insert", "Entry::or_insert_with"):
             a = show(N.term(n["args"][-1]))
             kind = "Recursive" if "Recursive" in a else "Computed" if "Computed" in a else a[:30]
